@@ -260,6 +260,7 @@ def elem_menu(b, tier):
          ["gen", h1, 0.8 * s, 1.0, "t", "t", True],
          ["gen", h0, 0.6 * s, 1.02, "d", "w", True],
          ["gen", h0, 0.5 * s, 1.01, "x", "w", False],          # fixed gen: p and vm are set-points
+         ["gen", h1, 0.4 * s, 1.01, "x", "w", False],          # fixed gen on the fused twin bus (same set-point: no conflict)
          ["sgen", h0, 0.8 * s, -0.2 * s, "w", "w", True],
          ["sgen", h1, 0.5 * s, 0.1 * s, "d", "d", True],
          ["sgen", h0, 0.4 * s, 0.1 * s, "x", "x", False],       # fixed: limits must be ignored
